@@ -540,7 +540,9 @@ var robustProtos = []string{"ipfix", "nf9", "nf5", "sflow"}
 
 func robustEnvs() map[string]*wire.GenEnv {
 	installEnterprise()
-	return map[string]*wire.GenEnv{"ipfix": wire.NewGenEnv("ipfix"), "nf9": wire.NewGenEnv("nf9")}
+	envs := map[string]*wire.GenEnv{"ipfix": wire.NewGenEnv("ipfix"), "nf9": wire.NewGenEnv("nf9")}
+	envs["ipfix"].Big, envs["nf9"].Big = true, true
+	return envs
 }
 
 const c01Rule = "case = history of 1..12 datagrams of one protocol (ipfix | nf9 | nf5 | sflow) from 1..3 exporters (4-byte, IPv4-mapped, IPv6), each datagram drawn from: " +
